@@ -86,7 +86,9 @@ pub fn hash_mode(h: &HasherSpec) -> HashMode {
 }
 
 fn collector(batch: usize) -> seize::Collector {
-    let c = seize::Collector::new();
+    // epoch tracking off: every guard that is active at a retirement protects the object, which is
+    // the model Trace_Reclaim checks (with epochs seize may skip guards that provably never saw it)
+    let c = seize::Collector::new().epoch_frequency(None);
     if batch > 0 {
         c.batch_size(batch)
     } else {
@@ -209,15 +211,16 @@ fn run_program(
                 if per_op {
                     let (n, bad) = sess.as_mut().unwrap().check_held();
                     lg.log(json!({"e": "canary", "t": tid, "g": gid, "n": n, "bad": bad}));
-                    sess = None;
+                    // logged first: the reclamation this release triggers happens inside the drop
                     lg.log(json!({"e": "gleave", "t": tid, "g": gid}));
+                    sess = None;
                 }
             }
             if let Some(mut s) = sess.take() {
                 let (n, bad) = s.check_held();
                 lg.log(json!({"e": "canary", "t": tid, "g": gid, "n": n, "bad": bad}));
-                drop(s);
                 lg.log(json!({"e": "gleave", "t": tid, "g": gid}));
+                drop(s);
             }
         }
         Coll::Set(set) => {
@@ -239,12 +242,13 @@ fn run_program(
                     lg.log(json!({"e": "obs", "t": tid, "i": i, "o": o}));
                 }
                 if per_op {
-                    sess = None;
                     lg.log(json!({"e": "gleave", "t": tid, "g": gid}));
+                    sess = None;
                 }
             }
-            if sess.take().is_some() {
+            if let Some(s) = sess.take() {
                 lg.log(json!({"e": "gleave", "t": tid, "g": gid}));
+                drop(s);
             }
         }
     }
@@ -353,6 +357,20 @@ fn run_job(job: &Job) -> Value {
         };
         Coll::Map(m.with_collector(collector(job.batch)))
     });
+    if job.rec.iter().any(|r| r == "mem") {
+        let c2 = coll.clone();
+        let f: sched::ReachFn = Box::new(move || match &*c2 {
+            Coll::Map(m) => {
+                let g = m.guard();
+                snap::reachable(&m.verif_snapshot(&g))
+            }
+            Coll::Set(s) => {
+                let g = s.verif_map().guard();
+                snap::reachable(&s.verif_map().verif_snapshot(&g))
+            }
+        });
+        *exec.reach.lock().unwrap() = Some(f);
+    }
     if job.check_each {
         let o = observe(&coll, &h, &job.finals, job.rec.iter().any(|r| r == "snap"));
         exec.log(json!({"e": "obs", "t": main_tid, "i": -1, "o": o}));
@@ -467,6 +485,7 @@ fn run_job(job: &Job) -> Value {
             exec.log(json!({"e": "quiescent", "o": o}));
         }
         // teardown
+        *exec.reach.lock().unwrap() = None;
         let coll = Arc::try_unwrap(coll).ok();
         let dropped_ok = std::panic::catch_unwind(std::panic::AssertUnwindSafe(|| drop(coll))).is_ok();
         drop(foreign);
